@@ -127,9 +127,9 @@ func genC20(tier string, seed uint64, emit func(string)) {
 	co(cArray(base...))
 	co(cTag(55799, cTag(18, cArray(base...))))
 	co(cTag(18, cTag(18, cArray(base...))))
-	co(append([]byte{0xd8, 18}, cArray(base...)...))                         // tag 18 in a two-byte head
-	co(append([]byte{0xd2, 0x98, 0x04}, cArray(base...)[1:]...))             // array length in a two-byte head
-	co(append([]byte{0xd2, 0x9f}, append(cArray(base...)[1:], 0xff)...))     // indefinite-length array
+	co(append([]byte{0xd8, 18}, cArray(base...)...))                     // tag 18 in a two-byte head
+	co(append([]byte{0xd2, 0x98, 0x04}, cArray(base...)[1:]...))         // array length in a two-byte head
+	co(append([]byte{0xd2, 0x9f}, append(cArray(base...)[1:], 0xff)...)) // indefinite-length array
 	// 2. array lengths 0..6
 	for n := 0; n <= 6; n++ {
 		items := []cv{}
@@ -162,6 +162,14 @@ func genC20(tier string, seed uint64, emit func(string)) {
 	for _, p := range []cv{cNull, cUndef, cTag(55799, cNull), cTag(1000, cUndef), cUint(1), cText("claims"), cArray(), cBytes(nil), cTrue, cFloat64(0), cMap(), cIndefMap(),
 		cMap(kvp{cUint(265), cText("http://arm.com/psa/3.0.0")}), cMap(kvp{cUint(265), cBytes([]byte{0x2b, 6, 1})})} {
 		co(envelope(prot, unprot, cBytes(p), sig))
+	}
+	// 4b. a good token wrapped in one more tag (CWT tag 61, self-described CBOR, ...)
+	{
+		good := envelope(prot, unprot, pl(1), sig)
+		for _, tg := range []uint64{61, 55799, 18, 6, 24, 1000} {
+			co(cTag(tg, cv(good)))
+			co(cTag(tg, cTag(61, cv(good))))
+		}
 	}
 	// 5. trailing bytes, truncation, a second token appended
 	good := envelope(prot, unprot, pl(1), sig)
